@@ -63,8 +63,15 @@ M_C06(pre, a, obs, post) ==
 
 \* ------------------------------------------------------------------ C03: only writers publish; rejects have no effect
 StoreOf(S) == [topics |-> S.topics, subs |-> S.subs, msgs |-> S.msgs]
+\* self, search and system topics (not projected as topics: judged by reply and by the system topic's message counter)
+M_C03_Special(a, obs) ==
+  IF ~("t" \in DOMAIN a /\ "s" \in DOMAIN a /\ a.a = "Pub") THEN {}
+  ELSE IF a.t \in {"me", "fnd"} THEN If(~Accepted(obs) /\ obs.code >= 400 /\ obs.data = {}, "SelfAndSearchTopicsRefusePublishes")
+  ELSE IF a.t = "sys" THEN If(Accepted(obs) /\ obs.sysPost = obs.sysPre + 1, "SystemTopicAcceptsAnyLoggedInAuthor")
+  ELSE {}
+
 M_C03(pre, a, obs, post) ==
-  IF ~(IsReq(a) /\ a.a = "Pub") THEN {} ELSE
+  IF ~(IsReq(a) /\ a.a = "Pub") THEN M_C03_Special(a, obs) ELSE
   LET t == a.t  s == a.s  u == Actor(a)
       \* attached, and the author is currently subscribed with W in both the requested and the granted mode
       writable == /\ t \in M(pre.sess[s].subs)
@@ -154,6 +161,12 @@ M_C07(pre, a, obs, post) ==
                "A" \in M(post.subs[t][u].given), "P2PKeepsApprove")
     \cup If(post.cache[t].loaded => \A x \in AttOf(post.cache[t]) : x.u \in P2PUsers[t] /\ "J" \in M(post.cache[t].per[x.u].given), "P2PNoAttachWithoutJoinGrant")
     : tt \in P2PTopics }
+
+M_C07_Special(a, obs) ==
+  IF ~("t" \in DOMAIN a /\ "s" \in DOMAIN a /\ a.a = "Sub") THEN {}
+  ELSE IF a.t = "sys" THEN If(Accepted(obs) => a.s \in RootSessions, "SystemTopicAdmitsOnlyRoot")
+  ELSE IF \E u \in Users : a.t = "fnd:" \o u /\ u # SessUser[a.s] THEN If(~Accepted(obs), "SearchTopicAdmitsOnlyItsOwnUser")
+  ELSE {}
 
 \* ------------------------------------------------------------------ C08: live state = stored state
 \* every cached field equals what a reload would compute from the rows; reported at the step that BREAKS it
@@ -287,7 +300,7 @@ Monitors(p, pre, a, obs, post) ==
     [] p = "C05" -> M_C05(pre, a, obs, post)
     [] p = "C04" -> M_C04(pre, a, obs, post)
     [] p = "C06" -> M_C06(pre, a, obs, post)
-    [] p = "C07" -> M_C07(pre, a, obs, post)
+    [] p = "C07" -> M_C07(pre, a, obs, post) \cup M_C07_Special(a, obs)
     [] p = "C08" -> M_C08(pre, a, obs, post)
     [] p = "C09" -> M_C09(pre, a, obs, post)
     [] OTHER -> {}
